@@ -47,6 +47,12 @@ pub trait Adapter {
     fn mutate_proof(_kind: &str, _pf: &Pf<Self>, _args: &[String]) -> Option<Pf<Self>> {
         None
     }
+    /// constructive attack from the property's catalogue: returns a crafted proof and the FALSE values it claims
+    fn attack(_kind: &str, _ck: &CK<Self>, _polys: &[&LabeledPolynomial<Self::F, Self::P>],
+              _comms: &[&LabeledCommitment<Cm<Self>>], _states: &[&St<Self>], _pt: &Pt<Self>,
+              _sponge: &mut RecSponge<Self::F>, _args: &[String]) -> Option<(Pf<Self>, Vec<Self::F>)> {
+        None
+    }
 }
 
 pub fn opt_usize(s: &str) -> Option<usize> {
@@ -357,7 +363,19 @@ where
                     "sponge_pre" => {}
                     "drop_poly" => { let k: usize = args[0].parse().unwrap(); if k < sel.len() { sel.remove(k); values.remove(k); } else { skipped = true; } }
                     "comm_mut" => { let i: usize = args[0].parse().unwrap(); match A::mutate_comm(&args[1], &cms[i], &args[2..]) { Some(x) => cms[i] = x, None => skipped = true } }
-                    "proof_mut" => { match A::mutate_proof(&args[0], &pf, &args[1..]) { Some(x) => pf = x, None => skipped = true } }
+                    "proof_mut" => { match guard_any(|| Ok::<_, ()>(A::mutate_proof(&args[0], &pf, &args[1..]))).ok().flatten() { Some(x) => pf = x, None => skipped = true } }
+                    // crafted proof AND a false claim (C03)
+                    "proof_mut_v" => { match guard_any(|| Ok::<_, ()>(A::mutate_proof(&args[0], &pf, &args[1..]))).ok().flatten() { Some(x) => { pf = x; values[0] += A::F::from(1u64); } None => skipped = true } }
+                    "attack" => {
+                        let ps: Vec<&LabeledPolynomial<A::F, A::P>> = sel.iter().map(|i| &polys[*i]).collect();
+                        let cs: Vec<&LabeledCommitment<Cm<A>>> = sel.iter().map(|i| &comms[*i]).collect();
+                        let ss: Vec<&St<A>> = sel.iter().map(|i| &states[*i]).collect();
+                        let mut asp = rec.vsponge_before.clone();
+                        match guard_any(|| Ok::<_, ()>(A::attack(&args[0], &ck, &ps, &cs, &ss, &pts[pj], &mut asp, &args[1..]))).ok().flatten() {
+                            Some((x, v)) => { pf = x; values = v; }
+                            None => skipped = true,
+                        }
+                    }
                     _ => skipped = true,
                 }
                 if skipped { out.obs1(&name, "S", "skipped".into()); continue; }
